@@ -91,9 +91,12 @@ def check_ast(case, ev):
         doc = json.loads(json.dumps(to_json_doc(spec)))
         mj = call(pg.from_json, doc, what="plog.from_json")
         if call(mj.errors, what="errors()"):
-            raise Violation(f"from_json of the hand-written document gives a model rejected by errors() although the "
-                            f"constructor form validates: {doc}")
-        reals.append(("from_json", mj))
+            # Not a violation: the JSON form has no sign field, and generated ids hash the sign ARGUMENT (None vs 1), so
+            # AtLeast(2,[a,b],sign=1) and All(a,b) are different children for the constructors but one and the same child
+            # (listed twice -> rightly rejected) when read from JSON. Counted; acceptance itself is C10's subject.
+            ev.count("json_form_rejected_by_validation")
+        else:
+            reals.append(("from_json", mj))
     for name, obj in reals:
         for env, w in zip(table, want):
             got = oracle.bounds_tuple(call(obj.evaluate, dict(env), what=f"{name}.evaluate"))
